@@ -162,7 +162,41 @@ func checkC20(p *Prog, r *Report) {
 		// arms keyed by the layout test: "contig" for the arm under head < tail / head <= tail, "wrapped" for the other
 		out := map[string][]ringSeg{}
 		c := p.CFG(fi)
+		armOf := func(n ast.Node) string {
+			pt, ok := c.PointOf(n)
+			arm := "?"
+			if ok {
+				for _, ct := range c.DominatingConds(pt) {
+					for _, cj := range Conjuncts(ct) {
+						if (cj.Op == "<" || cj.Op == "<=") && len(cj.Args) == 2 {
+							if cj.Args[0].Key() == head(fi).Key() && cj.Args[1].Key() == tail(fi).Key() {
+								arm = "contig"
+							}
+							if cj.Args[0].Key() == tail(fi).Key() && cj.Args[1].Key() == head(fi).Key() {
+								arm = "wrapped"
+							}
+						}
+					}
+				}
+			}
+			return arm
+		}
 		ast.Inspect(fi.Body, func(n ast.Node) bool {
+			// clear(elements[lo:hi]) visits (and zeroes) [lo, hi)
+			if call, isC := n.(*ast.CallExpr); isC && p.BuiltinName(call) == "clear" && len(call.Args) == 1 {
+				if t := p.Term(call.Args[0]); t.Op == "slice" && t.Args[0].Key() == elems(fi).Key() {
+					lo, hi := tConst(0).Key(), lenE(fi).Key()
+					if t.Args[1] != nil {
+						lo = t.Args[1].Key()
+					}
+					if t.Args[2] != nil {
+						hi = t.Args[2].Key()
+					}
+					arm := armOf(call)
+					out[arm] = append(out[arm], ringSeg{lo: lo, hi: hi, pos: call.Pos()})
+				}
+				return true
+			}
 			fs, ok := n.(*ast.ForStmt)
 			if !ok || fs.Init == nil || fs.Cond == nil || fs.Post == nil {
 				return true
@@ -521,7 +555,7 @@ func checkC20(p *Prog, r *Report) {
 			switch {
 			case t.IsConst() && t.Int == 0:
 				okS, why = true, "0"
-			case t.Key() == normTerm(mk("%", add(self, tConst(1)), le_)).Key():
+			case t.Key() == normTerm(mk("%", add(self, tConst(1)), le_)).Key() || rt.Key() == normTerm(mk("%", add(self, tConst(1)), le_)).Key():
 				okS, why = true, "(x + 1) % len(elements)"
 			case st.Fn.Name == "(*RingBuffer).Discard":
 				// end under end < cap ; end - cap otherwise, with end = head + n, n <= Len()
